@@ -20,9 +20,7 @@ EXTENDS WSServerCommon
 
 GwsIn(m0, e) ==
   LET sym == e.a
-      m   == [m0 EXCEPT !.hs = "busy", !.popt = {}, !.last = "in." \o sym,
-                        !.ctx = IF sym \in SubSyms THEN Ctx(m0, SubId(sym))
-                                ELSE IF sym \in CompSyms THEN Ctx(m0, CompId(sym)) ELSE ""]
+      m   == Busy(m0, sym, InCtx(m0, sym))
       err == {Opt("connerr", ""), Opt("error", "")}
   IN
   IF m0.hs # "reading" \/ m0.conn = "closed" THEN Reject(m0, "Harness", "input-while-not-reading", m0.hs)
@@ -31,6 +29,15 @@ GwsIn(m0, e) ==
          IF m.conn = "opened" THEN [m EXCEPT !.pend = "ack"]
          ELSE [m EXCEPT !.popt = m.popt \cup {Opt("ack", ""), Opt("connerr", "")}]
     [] sym \in {"ping", "pong", "unknown", "malformed", "binary"} -> [m EXCEPT !.popt = m.popt \cup err]
+    \* a refused init: connection_error, never an ack (and so no keep-alive); the server terminates what is running
+    \* on the connection - those operations end without a terminal message, nothing is owed for them any more
+    [] sym = "initrej" ->
+         [m EXCEPT !.popt = m.popt \cup {Opt("connerr", "")},
+                   !.op = [i \in OpIds |-> IF m.op[i].st = "active" THEN [m.op[i] EXCEPT !.stop = TRUE] ELSE m.op[i]]]
+    \* a start whose payload cannot be deserialized starts nothing; it may be refused
+    [] sym = "subbad" -> [m EXCEPT !.popt = m.popt \cup err \cup {Opt("error", "1")}]
+    \* one connection_error per transport read error at most
+    [] sym = "readerr" -> [m EXCEPT !.popt = {Opt("connerr", "")}]
     [] sym = "missingid" -> [Activate(m, "", "q", e.k) EXCEPT !.popt = m.popt \cup err]
     [] sym \in SubSyms ->
          LET id == SubId(sym) IN
@@ -59,7 +66,8 @@ GwsStep(m, e) ==
   ELSE
   CASE e.ev = "in"      -> GwsIn(m, e)
     [] e.ev = "out"     -> GwsOut(m, e)
-    [] e.ev = "close"   -> Reject(m, "CloseCode", "close-not-allowed", ToString(e.code))
+    [] e.ev = "close"   -> IF e.code = 0 /\ GaveUp(m) /\ m.conn # "closed" THEN Close(m, e)
+                           ELSE Reject(m, "CloseCode", "close-not-allowed", ToString(e.code))
     [] e.ev = "rd"      -> Rd(m)
     [] e.ev = "exit"    -> Exit(m)
     [] e.ev = "eof"     -> Eof(m)
@@ -69,6 +77,7 @@ GwsStep(m, e) ==
     [] e.ev = "wedge"   -> Reject(m, "NeverWedged", "wedged", e.a)
     [] e.ev = "panic"   -> Reject(m, "NoPanic", "panic", e.a)
     [] e.ev = "done"    -> m
+    [] e.ev = "broken"  -> [m EXCEPT !.broken = TRUE]
     [] e.ev = "hold"    -> [m EXCEPT !.wif = TRUE]
     [] e.ev = "unhold"  -> [m EXCEPT !.wif = FALSE]
     [] OTHER            -> Reject(m, "Harness", "unknown-event", e.ev)
